@@ -923,8 +923,31 @@ Definition validate_custodian_update (v : view) (f : facts) (t : tx) (ts : Z) : 
 
 (* ---- Validate ------------------------------------------------------------------ *)
 
-Definition validate (v : view) (f : facts) (h : N) (ts : Z) (fork : bool) (t : tx) : res unit :=
-  let ty := tx_type t in
+(* the switch on the transaction type at the end of Validate *)
+Definition dispatch (v : view) (f : facts) (h : N) (ts : Z) (t : tx) (ty : Z) (flt : list (slot * utxo)) : res unit :=
+  if ty =? ty_script then validate_script flt
+  else if ty =? ty_mint then validate_mint v h t
+  else if ty =? ty_deposit then validate_deposit v f h t ts
+  else if ty =? ty_wsubmit then validate_withdrawal_submit t flt
+  else if ty =? ty_wclaim then validate_withdrawal_claim v f t flt ts
+  else if ty =? ty_pledge then validate_node_pledge v f t flt ts
+  else if ty =? ty_cancel then validate_node_cancel v f t ts
+  else if ty =? ty_accept then validate_node_accept v f t ts
+  else if ty =? ty_remove then validate_node_remove v t
+  else if ty =? ty_cupdate then validate_custodian_update v f t ts
+  else if ty =? ty_cslash then Err
+  else Err.
+
+(* the signature-count gate *)
+Definition sig_count_bad (t : tx) (ty : Z) : bool :=
+  match t_agg t with
+  | Some _ => match t_sigs t with Some _ => true | None => false end
+  | None => negb (len (t_inputs t) =? len (match t_sigs t with Some l => l | None => [] end))
+            && negb (ty =? ty_remove)
+  end.
+
+(* the checks of Validate before anything is read from the store *)
+Definition precheck (t : tx) (ty : Z) : res unit :=
   if negb (t_version t =? Consts.ValTxVersionHashSignature) then Err
   else if ty =? ty_unknown then Err
   else if (len (t_inputs t) <? 1) || (len (t_outputs t) <? 1) then Err
@@ -937,27 +960,15 @@ Definition validate (v : view) (f : facts) (h : N) (ts : Z) (fork : bool) (t : t
     else
       do size <- payload_marshal t;
       if size >? Consts.ValTransactionMaximumSize then Err
-      else if match t_agg t with
-              | Some _ => match t_sigs t with Some _ => true | None => false end
-              | None => negb (len (t_inputs t) =? len (match t_sigs t with Some l => l | None => [] end))
-                        && negb (ty =? ty_remove)
-              end then Err
-      else
-        do _ <- validate_references v t;
-        do r <- validate_inputs v f h t ty fork;
-        let '(flt, input_amount) := r in
-        if input_amount <=? 0 then Err
-        else
-          do _ <- validate_outputs v f h t input_amount fork;
-          if ty =? ty_script then validate_script flt
-          else if ty =? ty_mint then validate_mint v h t
-          else if ty =? ty_deposit then validate_deposit v f h t ts
-          else if ty =? ty_wsubmit then validate_withdrawal_submit t flt
-          else if ty =? ty_wclaim then validate_withdrawal_claim v f t flt ts
-          else if ty =? ty_pledge then validate_node_pledge v f t flt ts
-          else if ty =? ty_cancel then validate_node_cancel v f t ts
-          else if ty =? ty_accept then validate_node_accept v f t ts
-          else if ty =? ty_remove then validate_node_remove v t
-          else if ty =? ty_cupdate then validate_custodian_update v f t ts
-          else if ty =? ty_cslash then Err
-          else Err.
+      else if sig_count_bad t ty then Err
+      else Ok tt.
+
+Definition validate (v : view) (f : facts) (h : N) (ts : Z) (fork : bool) (t : tx) : res unit :=
+  let ty := tx_type t in
+  do _ <- precheck t ty;
+  do _ <- validate_references v t;
+  do r <- validate_inputs v f h t ty fork;
+  if snd r <=? 0 then Err
+  else
+    do _ <- validate_outputs v f h t (snd r) fork;
+    dispatch v f h ts t ty (fst r).
